@@ -135,8 +135,15 @@ def gen_sig(rng, namer, nmax, depth, malformed):
             params[-1]['kind'] = 'varkw'
             params[-1]['default'] = ['none']
             params[-1]['annot'] = None
-        elif k < 0.9:
+        elif k < 0.86:
             prepend = n + 1
+        else:
+            # empty tuple default: a zero-width control; a rate group made only of them raises
+            params[i]['default'] = ['t', []]
+            if rng.random() < 0.5:
+                for p in params:
+                    if p['default'][0] != 't':
+                        p['annot'] = rng.choice(['ir', 'tr', 'ar'])
     wraps = []
     if depth < 2 and rng.random() < (0.35 if depth == 0 else 0.2):
         for _ in range(rng.randint(1, 2)):
@@ -247,6 +254,8 @@ def battery():
                                rates=['kr', 'ir', 'tr', 'ar', 'ir'])),
         case('b_clump', sig([P('a', None, T(*range(20))), P('b', None, S(5)), P('c', None, T(*range(15)))],
                             rates=[['lag', '1/8', False], None, ['lags', [['1/4', False], ['0', True]]]])),
+        case('b_empty_alone', sig([P('a', None, ['t', []])])),
+        case('b_empty_shared', sig([P('a', None, ['t', []]), P('b', None, T(2, 3))], rates=[['lag', '1/8', False], ['lag', '1/4', False]])),
         case('b_lagshort', sig([P('a', None, T(1, 2, 3)), P('b', None, T(4, 5))],
                                rates=[['lags', [['1/8', False], ['1/4', False]]], ['lags', [['1/2', False], ['3/4', False], ['1', True]]]])),
     ]
@@ -369,8 +378,8 @@ def bytes_agree(case, o):
     if v['table'] != [[g[0], g[1]] for g in o['all']] or v['controls'] != o['controls']:
         return 'SCgf name table / control array differ from _all_control_names / _controls'
     d = o.get('desc')
-    if d is None:
-        return None
+    if d is None or any(len(g[3]) == 0 for g in o['all']):
+        return None     # zero-width controls share a slot with their neighbour: SynthDesc cannot name both
     names = [g[0] for g in o['all']]
     if 'error' in d:
         if len(set(names)) != len(names) and 'duplicated' in d['error']:
